@@ -582,10 +582,15 @@ class SpaceEncoder(BaseEncoder):
     def pickle_dynamic_inputs(self):
 
         datafile = self.datapath / "_dynamic_inputs"
+        # Values assigned on derived cells: no cells definition carries them
+        derived = [c for c in self.space.cells.values()
+                   if not c._is_defined() and c._impl.input_keys]
 
-        if self.space._named_itemspaces:
+        if self.space._named_itemspaces or derived:
 
             def callback(f):
+                for cells in derived:
+                    self._pickle_inputs(f, cells, self.space)
                 for s in self.space._named_itemspaces.values():
                     self._pickle_dynamic_space(f, s, self.space)
 
@@ -596,31 +601,35 @@ class SpaceEncoder(BaseEncoder):
     def _pickle_dynamic_space(self, file, space, static_parent):
 
         for cells in space.cells.values():
-            for key in cells._impl.input_keys:
-                value = cells._impl.data[key]
-                keyid = id(key)
-                if keyid not in self.writer.pickledata:
-                    self.writer.pickledata[keyid] = key
-                valid = id(value)
-                if valid not in self.writer.pickledata:
-                    self.writer.pickledata[valid] = value
-
-                idtuple = TupleID(abs_to_rel_tuple(
-                    cells._idtuple, static_parent._idtuple))
-                idtuple.pickle_args(self.writer.pickledata)
-                file.write(
-                    "(%s, %s, %s)\n" % (idtuple.serialize(), keyid, valid)
-                )
-
-                if self.writer.log_input:
-                    self.writer.input_log.append(
-                        output_input(cells, key))
+            self._pickle_inputs(file, cells, static_parent)
 
         for subspace in space.named_spaces.values():
             self._pickle_dynamic_space(file, subspace, static_parent)
 
         for subspace in space._named_itemspaces.values():
             self._pickle_dynamic_space(file, subspace, static_parent)
+
+    def _pickle_inputs(self, file, cells, static_parent):
+
+        for key in cells._impl.input_keys:
+            value = cells._impl.data[key]
+            keyid = id(key)
+            if keyid not in self.writer.pickledata:
+                self.writer.pickledata[keyid] = key
+            valid = id(value)
+            if valid not in self.writer.pickledata:
+                self.writer.pickledata[valid] = value
+
+            idtuple = TupleID(abs_to_rel_tuple(
+                cells._idtuple, static_parent._idtuple))
+            idtuple.pickle_args(self.writer.pickledata)
+            file.write(
+                "(%s, %s, %s)\n" % (idtuple.serialize(), keyid, valid)
+            )
+
+            if self.writer.log_input:
+                self.writer.input_log.append(
+                    output_input(cells, key))
 
 
 class RefViewEncoder(BaseEncoder):
